@@ -35,6 +35,11 @@ type desc struct {
 	Direct   bool   `json:"direct,omitempty"`
 	Impl     string `json:"impl"`
 	Key      string `json:"key,omitempty"`
+	// retained-value oracles (kind retain / concurrent): the operation whose result changed and the later operation
+	Op       string `json:"op,omitempty"`
+	LaterOp  string `json:"later_op,omitempty"`
+	LaterHex string `json:"later_hex,omitempty"`
+	Where    string `json:"where,omitempty"`
 }
 
 func printable(b []byte) string {
@@ -105,52 +110,88 @@ func (r intRes) String() string {
 // runParse: a value too large to print is replaced by a marker of the same sign (cases whose exact
 // value is that large are never written as Coq cases)
 func runParse(ty int, in []byte) intRes {
-	r := runParseRaw(ty, in)
+	r := runParseRaw(K, ty, in)
 	if r.cls == 0 && r.val.BitLen() > 1<<17 {
 		r.val = new(big.Int).Lsh(big.NewInt(int64(r.val.Sign())), 300)
 	}
 	return r
 }
 
-func runParseRaw(ty int, in []byte) (r intRes) {
-	r.val = new(big.Int)
-	defer func() {
-		if x := recover(); x != nil {
-			r = intRes{cls: 2, val: new(big.Int), err: fmt.Sprint(x)}
+// runParseRaw runs one integer parse.  The object the implementation returned stays alive in the keeper k (nil: not
+// retained) next to the deep copy r.val taken here; the []byte entry points get a private copy of the input that is
+// checked (unmodified) and overwritten after the call.
+func runParseRaw(k *keeper, ty int, in []byte) (r intRes) {
+	op := fmt.Sprintf("parse%d", ty)
+	var it *keptItem
+	var ig *inputGuard
+	r = func() (r intRes) {
+		defer func() {
+			if x := recover(); x != nil {
+				r = intRes{cls: 2, val: new(big.Int), err: fmt.Sprint(x)}
+				it = nil
+			}
+		}()
+		switch ty {
+		case 0:
+			i, err := ethtypes.BigIntegerFromString(context.Background(), string(in))
+			if err != nil {
+				return intRes{cls: 1, val: new(big.Int), err: err.Error()}
+			}
+			it = watchInt("the *big.Int returned by BigIntegerFromString", i)
+			return intRes{cls: 0, val: new(big.Int).Set(i)}
+		case 1:
+			h := new(ethtypes.HexInteger)
+			var err error
+			ig = guardInput(in)
+			valid := json.Valid(in)
+			if valid {
+				err = json.Unmarshal(ig.buf, h)
+			} else {
+				err = h.UnmarshalJSON(ig.buf)
+			}
+			// the exported function underneath, called directly on a complete JSON value: the same integer (it also
+			// accepts negative ones); the *big.Int it returns is retained as well
+			var bi *big.Int
+			if valid {
+				var e0 error
+				bi, e0 = ethtypes.UnmarshalBigInt(context.Background(), ig.buf)
+				if (err == nil && (e0 != nil || bi.Cmp(h.BigInt()) != 0)) || (err != nil && e0 == nil && bi.Sign() >= 0) {
+					return intRes{cls: 1, val: new(big.Int), err: "UnmarshalBigInt called directly differs from HexInteger.UnmarshalJSON"}
+				}
+				if e0 != nil {
+					bi = nil
+				}
+			}
+			if err != nil {
+				it = watchInt("the *big.Int returned by UnmarshalBigInt", bi)
+				return intRes{cls: 1, val: new(big.Int), err: err.Error()}
+			}
+			it = joinItems(op, in, "", watchInt("the HexInteger filled by UnmarshalJSON", h.BigInt()), watchInt("the *big.Int returned by UnmarshalBigInt", bi))
+			return intRes{cls: 0, val: new(big.Int).Set(h.BigInt())}
+		default:
+			h := new(ethtypes.HexUint64)
+			var err error
+			ig = guardInput(in)
+			if json.Valid(in) {
+				err = json.Unmarshal(ig.buf, h)
+			} else {
+				err = h.UnmarshalJSON(ig.buf)
+			}
+			if err != nil {
+				return intRes{cls: 1, val: new(big.Int), err: err.Error()}
+			}
+			snap := h.Uint64()
+			it = &keptItem{what: "the HexUint64 filled by UnmarshalJSON", want: fmt.Sprint(snap),
+				same: func() bool { return uint64(*h) == snap && h.Uint64OrZero() == snap }, now: func() string { return fmt.Sprint(uint64(*h)) }}
+			return intRes{cls: 0, val: new(big.Int).SetUint64(snap)}
 		}
 	}()
-	switch ty {
-	case 0:
-		i, err := ethtypes.BigIntegerFromString(context.Background(), string(in))
-		if err != nil {
-			return intRes{cls: 1, val: new(big.Int), err: err.Error()}
-		}
-		return intRes{cls: 0, val: new(big.Int).Set(i)}
-	case 1:
-		var h ethtypes.HexInteger
-		var err error
-		if json.Valid(in) {
-			err = json.Unmarshal(in, &h)
-		} else {
-			err = h.UnmarshalJSON(in)
-		}
-		if err != nil {
-			return intRes{cls: 1, val: new(big.Int), err: err.Error()}
-		}
-		return intRes{cls: 0, val: new(big.Int).Set(h.BigInt())}
-	default:
-		var h ethtypes.HexUint64
-		var err error
-		if json.Valid(in) {
-			err = json.Unmarshal(in, &h)
-		} else {
-			err = h.UnmarshalJSON(in)
-		}
-		if err != nil {
-			return intRes{cls: 1, val: new(big.Int), err: err.Error()}
-		}
-		return intRes{cls: 0, val: new(big.Int).SetUint64(h.Uint64())}
+	if k != nil {
+		k.keep(joinItems(op, in, sumInt(r), it))
 	}
+	ig.done(k, op)
+	k.after(op, in)
+	return r
 }
 
 type gen struct {
@@ -159,6 +200,8 @@ type gen struct {
 	seen    map[string]bool
 	sampled map[string]bool
 	r       *cv.Rand
+	// number of retained-value failures already copied into the statistics (capped)
+	retainFails int
 }
 
 // add writes the case and keeps the first case of every constructor/class as a sample for the evidence
@@ -281,32 +324,8 @@ func isJSONNumber(s string) bool {
 }
 
 func (g *gen) addPrint(ty int, z *big.Int) {
-	var out []byte
-	var err error
 	back := intRes{cls: 2, val: new(big.Int)}
-	func() {
-		defer func() {
-			if x := recover(); x != nil {
-				err = fmt.Errorf("panic: %v", x)
-			}
-		}()
-		if ty == 1 {
-			h := ethtypes.NewHexInteger(new(big.Int).Set(z))
-			out, err = json.Marshal(h)
-			if err == nil {
-				// String() is the documented text form; MarshalJSON must be that text quoted
-				if string(out) != `"`+h.String()+`"` {
-					err = fmt.Errorf("MarshalJSON %s is not String() %s quoted", out, h.String())
-				}
-			}
-		} else {
-			h := ethtypes.HexUint64(z.Uint64())
-			out, err = json.Marshal(h)
-			if err == nil && string(out) != `"`+h.String()+`"` {
-				err = fmt.Errorf("MarshalJSON %s is not String() %s quoted", out, h.String())
-			}
-		}
-	}()
+	out, err := runPrint(K, ty, z)
 	if err != nil {
 		g.st.ImplFailures = append(g.st.ImplFailures, map[string]interface{}{"what": "integer marshal failed: " + err.Error(), "ty": ty, "value": z.String()})
 		return
@@ -481,49 +500,92 @@ func (r bytesRes) String() string {
 	return "PANIC"
 }
 
-func runAddr(direct bool, in []byte) (r bytesRes) {
-	defer func() {
-		if x := recover(); x != nil {
-			r = bytesRes{cls: 2, err: fmt.Sprint(x)}
-		}
-	}()
-	var a ethtypes.Address0xHex
-	var err error
+func runAddr(k *keeper, direct bool, in []byte) (r bytesRes) {
+	op := "addr-json"
 	if direct {
-		err = a.SetString(string(in))
-		// the constructors are the same parse
-		n1, e1 := ethtypes.NewAddress(string(in))
-		n2, e2 := ethtypes.NewAddressWithChecksum(string(in))
-		if (e1 == nil) != (err == nil) || (e2 == nil) != (err == nil) || (err == nil && (!bytes.Equal(n1[:], a[:]) || !bytes.Equal(n2[:], a[:]))) {
-			return bytesRes{cls: 1, err: "NewAddress/NewAddressWithChecksum differ from SetString"}
-		}
-	} else if json.Valid(in) {
-		err = json.Unmarshal(in, &a)
-	} else {
-		err = a.UnmarshalJSON(in)
+		op = "addr-direct"
 	}
-	if err != nil {
-		return bytesRes{cls: 1, err: err.Error()}
-	}
-	// the two sibling types must parse identically
-	if !direct {
-		var c ethtypes.AddressWithChecksum
-		var p ethtypes.AddressPlainHex
-		var e1, e2 error
-		if json.Valid(in) {
-			e1, e2 = json.Unmarshal(in, &c), json.Unmarshal(in, &p)
+	var it *keptItem
+	var ig *inputGuard
+	r = func() (r bytesRes) {
+		defer func() {
+			if x := recover(); x != nil {
+				r = bytesRes{cls: 2, err: fmt.Sprint(x)}
+				it = nil
+			}
+		}()
+		a := new(ethtypes.Address0xHex)
+		var n1 *ethtypes.Address0xHex
+		var n2 *ethtypes.AddressWithChecksum
+		c, p := new(ethtypes.AddressWithChecksum), new(ethtypes.AddressPlainHex)
+		var err error
+		if direct {
+			err = a.SetString(string(in))
+			// the constructors are the same parse
+			var e1, e2 error
+			n1, e1 = ethtypes.NewAddress(string(in))
+			n2, e2 = ethtypes.NewAddressWithChecksum(string(in))
+			if (e1 == nil) != (err == nil) || (e2 == nil) != (err == nil) || (err == nil && (!bytes.Equal(n1[:], a[:]) || !bytes.Equal(n2[:], a[:]))) {
+				return bytesRes{cls: 1, err: "NewAddress/NewAddressWithChecksum differ from SetString"}
+			}
+			if err == nil {
+				if m := ethtypes.MustNewAddress(string(in)); *m != *a {
+					return bytesRes{cls: 1, err: "MustNewAddress differs from SetString"}
+				}
+			}
 		} else {
-			e1, e2 = c.UnmarshalJSON(in), p.UnmarshalJSON(in)
+			ig = guardInput(in)
+			if json.Valid(in) {
+				err = json.Unmarshal(ig.buf, a)
+			} else {
+				err = a.UnmarshalJSON(ig.buf)
+			}
 		}
-		if e1 != nil || e2 != nil || !bytes.Equal(c[:], a[:]) || !bytes.Equal(p[:], a[:]) {
-			return bytesRes{cls: 1, err: "AddressWithChecksum/AddressPlainHex parse differs from Address0xHex"}
+		if err != nil {
+			return bytesRes{cls: 1, err: err.Error()}
 		}
+		// the two sibling types must parse identically
+		if !direct {
+			var e1, e2 error
+			if json.Valid(in) {
+				e1, e2 = json.Unmarshal(ig.buf, c), json.Unmarshal(ig.buf, p)
+			} else {
+				e1, e2 = c.UnmarshalJSON(ig.buf), p.UnmarshalJSON(ig.buf)
+			}
+			if e1 != nil || e2 != nil || !bytes.Equal(c[:], a[:]) || !bytes.Equal(p[:], a[:]) {
+				return bytesRes{cls: 1, err: "AddressWithChecksum/AddressPlainHex parse differs from Address0xHex"}
+			}
+		}
+		snap := *a
+		it = &keptItem{what: "the address filled by SetString / UnmarshalJSON / returned by NewAddress", want: hex.EncodeToString(snap[:]),
+			same: func() bool {
+				if direct {
+					return *a == snap && *n1 == snap && [20]byte(*n2) == [20]byte(snap)
+				}
+				return *a == snap && [20]byte(*c) == [20]byte(snap) && [20]byte(*p) == [20]byte(snap)
+			},
+			now: func() string {
+				if direct {
+					return hex.EncodeToString(a[:]) + " " + hex.EncodeToString(n1[:]) + " " + hex.EncodeToString(n2[:])
+				}
+				return hex.EncodeToString(a[:]) + " " + hex.EncodeToString(c[:]) + " " + hex.EncodeToString(p[:])
+			}}
+		if direct {
+			// the constructors return pointers: the caller may write through them
+			it.scribble = func() { scribbleBytes(n1[:]); scribbleBytes(n2[:]) }
+		}
+		return bytesRes{cls: 0, out: append([]byte{}, a[:]...)}
+	}()
+	if k != nil {
+		k.keep(joinItems(op, in, r.sum(), it))
 	}
-	return bytesRes{cls: 0, out: append([]byte{}, a[:]...)}
+	ig.done(k, op)
+	k.after(op, in)
+	return r
 }
 
 func (g *gen) addAddr(direct bool, in []byte, class string, expect int, exp []byte) {
-	r := runAddr(direct, in)
+	r := runAddr(K, direct, in)
 	lexs := "None"
 	if !direct {
 		lexs = lexsOracle(in)
@@ -541,19 +603,9 @@ func (g *gen) addAddr(direct bool, in []byte, class string, expect int, exp []by
 }
 
 func (g *gen) addAddrPrint(a []byte) {
-	var a0 ethtypes.Address0xHex
-	copy(a0[:], a)
-	ac := ethtypes.AddressWithChecksum(a0)
-	ap := ethtypes.AddressPlainHex(a0)
-	s0, sc, sp := a0.String(), ac.String(), ap.String()
-	for _, p := range []struct {
-		v interface{}
-		s string
-	}{{a0, s0}, {ac, sc}, {ap, sp}, {&a0, s0}, {&ac, sc}, {&ap, sp}} {
-		j, err := json.Marshal(p.v)
-		if err != nil || string(j) != `"`+p.s+`"` {
-			g.st.ImplFailures = append(g.st.ImplFailures, map[string]interface{}{"what": "address MarshalJSON is not String() quoted", "address": hex.EncodeToString(a), "json": string(j)})
-		}
+	s0, sc, sp, err := runAddrPrint(K, a)
+	if err != nil {
+		g.st.ImplFailures = append(g.st.ImplFailures, map[string]interface{}{"what": "address print failed: " + err.Error(), "address": hex.EncodeToString(a)})
 	}
 	g.st.Hit("addrprint")
 	g.distinct("ap|"+string(a), true)
@@ -561,46 +613,65 @@ func (g *gen) addAddrPrint(a []byte) {
 		desc{Kind: "addrprint", Input: hex.EncodeToString(a), InputHex: hex.EncodeToString(a), Impl: s0 + " " + sc + " " + sp})
 }
 
-func runBytes(in []byte) (r bytesRes) {
-	defer func() {
-		if x := recover(); x != nil {
-			r = bytesRes{cls: 2, err: fmt.Sprint(x)}
+func runBytes(k *keeper, in []byte) (r bytesRes) {
+	var it *keptItem
+	ig := guardInput(in)
+	r = func() (r bytesRes) {
+		defer func() {
+			if x := recover(); x != nil {
+				r = bytesRes{cls: 2, err: fmt.Sprint(x)}
+				it = nil
+			}
+		}()
+		var h ethtypes.HexBytesPlain
+		var h0 ethtypes.HexBytes0xPrefix
+		var e1, e2 error
+		if json.Valid(in) {
+			e1, e2 = json.Unmarshal(ig.buf, &h), json.Unmarshal(ig.buf, &h0)
+		} else {
+			e1, e2 = h.UnmarshalJSON(ig.buf), h0.UnmarshalJSON(ig.buf)
 		}
-	}()
-	var h ethtypes.HexBytesPlain
-	var h0 ethtypes.HexBytes0xPrefix
-	var e1, e2 error
-	if json.Valid(in) {
-		e1, e2 = json.Unmarshal(in, &h), json.Unmarshal(in, &h0)
-	} else {
-		e1, e2 = h.UnmarshalJSON(in), h0.UnmarshalJSON(in)
-	}
-	if (e1 == nil) != (e2 == nil) {
-		return bytesRes{cls: 1, err: "HexBytesPlain and HexBytes0xPrefix disagree"}
-	}
-	if e1 != nil {
+		if (e1 == nil) != (e2 == nil) {
+			return bytesRes{cls: 1, err: "HexBytesPlain and HexBytes0xPrefix disagree"}
+		}
+		if e1 != nil {
+			var str string
+			if json.Unmarshal(in, &str) == nil {
+				if _, e := ethtypes.NewHexBytes0xPrefix(str); e == nil {
+					return bytesRes{cls: 0, out: []byte("NewHexBytes0xPrefix accepted what UnmarshalJSON rejected")}
+				}
+			}
+			return bytesRes{cls: 1, err: e1.Error()}
+		}
+		if !bytes.Equal(h, h0) {
+			return bytesRes{cls: 1, err: "HexBytesPlain and HexBytes0xPrefix disagree"}
+		}
+		lives := [][]byte{h, h0}
 		var str string
 		if json.Unmarshal(in, &str) == nil {
-			if _, e := ethtypes.NewHexBytes0xPrefix(str); e == nil {
-				return bytesRes{cls: 0, out: []byte("NewHexBytes0xPrefix accepted what UnmarshalJSON rejected")}
+			n, e := ethtypes.NewHexBytes0xPrefix(str)
+			if e != nil || !bytes.Equal(n, h) {
+				return bytesRes{cls: 1, err: "NewHexBytes0xPrefix differs from UnmarshalJSON"}
 			}
+			m := ethtypes.MustNewHexBytes0xPrefix(str)
+			if !bytes.Equal(m, h) {
+				return bytesRes{cls: 1, err: "MustNewHexBytes0xPrefix differs from UnmarshalJSON"}
+			}
+			lives = append(lives, n, m)
 		}
-		return bytesRes{cls: 1, err: e1.Error()}
+		it = watchBytes("the HexBytes filled by UnmarshalJSON / returned by NewHexBytes0xPrefix", lives...)
+		return bytesRes{cls: 0, out: append([]byte{}, h...)}
+	}()
+	if k != nil {
+		k.keep(joinItems("bytes", in, r.sum(), it))
 	}
-	if !bytes.Equal(h, h0) {
-		return bytesRes{cls: 1, err: "HexBytesPlain and HexBytes0xPrefix disagree"}
-	}
-	var str string
-	if json.Unmarshal(in, &str) == nil {
-		if n, e := ethtypes.NewHexBytes0xPrefix(str); e != nil || !bytes.Equal(n, h) {
-			return bytesRes{cls: 1, err: "NewHexBytes0xPrefix differs from UnmarshalJSON"}
-		}
-	}
-	return bytesRes{cls: 0, out: append([]byte{}, h...)}
+	ig.done(k, "bytes")
+	k.after("bytes", in)
+	return r
 }
 
 func (g *gen) addBytes(in []byte, class string, expect int, exp []byte) {
-	r := runBytes(in)
+	r := runBytes(K, in)
 	g.st.Hit(fmt.Sprintf("bytes:%s:class=%d", class, r.cls))
 	if r.cls == 2 {
 		g.st.ImplFailures = append(g.st.ImplFailures, map[string]interface{}{"what": "hex bytes parse panicked", "input": printable(in), "input_hex": hex.EncodeToString(in)})
@@ -611,17 +682,9 @@ func (g *gen) addBytes(in []byte, class string, expect int, exp []byte) {
 }
 
 func (g *gen) addBytesPrint(h []byte) {
-	hp := ethtypes.HexBytesPlain(h)
-	h0 := ethtypes.HexBytes0xPrefix(h)
-	sp, s0 := hp.String(), h0.String()
-	for _, p := range []struct {
-		v interface{}
-		s string
-	}{{hp, sp}, {h0, s0}} {
-		j, err := json.Marshal(p.v)
-		if err != nil || string(j) != `"`+p.s+`"` {
-			g.st.ImplFailures = append(g.st.ImplFailures, map[string]interface{}{"what": "hex bytes MarshalJSON is not String() quoted", "bytes": hex.EncodeToString(h)})
-		}
+	sp, s0, err := runBytesPrint(K, h)
+	if err != nil {
+		g.st.ImplFailures = append(g.st.ImplFailures, map[string]interface{}{"what": "hex bytes print failed: " + err.Error(), "bytes": hex.EncodeToString(h)})
 	}
 	g.st.Hit(fmt.Sprintf("bytesprint:len=%s", lenBucket(len(h))))
 	g.distinct("bp|"+string(h), len(h) > 0)
@@ -835,16 +898,37 @@ func main() {
 			g.addPrint(rp.Case.Ty, z)
 		case "addr":
 			g.addAddr(rp.Case.Direct, in, "replay", rp.Case.Expect, exp)
-			fmt.Printf("implementation on %s: %s\n", printable(in), runAddr(rp.Case.Direct, in))
+			fmt.Printf("implementation on %s: %s\n", printable(in), runAddr(K, rp.Case.Direct, in))
 		case "addrprint":
 			g.addAddrPrint(in)
 		case "bytes":
 			g.addBytes(in, "replay", rp.Case.Expect, exp)
-			fmt.Printf("implementation on %s: %s\n", printable(in), runBytes(in))
+			fmt.Printf("implementation on %s: %s\n", printable(in), runBytes(K, in))
 		case "bytesprint":
 			g.addBytesPrint(in)
 		case "lex":
 			g.addLex(in)
+		case "retain":
+			// the pair (operation whose result changed, later operation), then the final comparison and the overwrite test
+			later, _ := hex.DecodeString(rp.Case.LaterHex)
+			fmt.Printf("%s on %s: %s\n", rp.Case.Op, printable(in), clip(runOp(K, rp.Case.Op, in)))
+			if rp.Case.LaterOp != "" && !strings.HasPrefix(rp.Case.LaterOp, "(") {
+				fmt.Printf("then %s on %s: %s\n", rp.Case.LaterOp, printable(later), clip(runOp(K, rp.Case.LaterOp, later)))
+			}
+			K.finish()
+			g.mergeKeeper(K)
+			for _, f := range K.fails {
+				fmt.Printf("retained value check failed: %v\n", f)
+			}
+			if rp.Case.Where != "" {
+				// seen in the concurrent section: the pair alone need not show it
+				g.concurrent(8, 1500)
+			}
+		case "concurrent":
+			g.concurrent(8, 1500)
+		case "helper":
+			g.addHelpers()
+			g.mergeKeeper(K)
 		default:
 			g.addLib(string(in))
 		}
@@ -980,7 +1064,7 @@ func main() {
 	// beyond math/big's limit for exact expansion: an error, or (should the limit move) the exact value - never a rounded one
 	for _, k := range []int64{1000001, 1500000} {
 		text := fmt.Sprintf("1e%d", k)
-		rr := runParseRaw(0, []byte(text))
+		rr := runParseRaw(K, 0, []byte(text))
 		if rr.cls == 2 || (rr.cls == 0 && rr.val.Cmp(pow10(k)) != 0) {
 			st.ImplFailures = append(st.ImplFailures, map[string]interface{}{"what": "exponent text accepted with a value that is not its exact value", "input": text, "impl": fmt.Sprintf("class %d, %d bits", rr.cls, rr.val.BitLen())})
 		}
@@ -988,7 +1072,7 @@ func main() {
 	}
 	for _, k := range []int64{1000, 100000, 1000000} {
 		text := fmt.Sprintf("1e%d", k)
-		rr := runParseRaw(0, []byte(text))
+		rr := runParseRaw(K, 0, []byte(text))
 		if rr.cls != 0 || rr.val.Cmp(pow10(k)) != 0 {
 			st.ImplFailures = append(st.ImplFailures, map[string]interface{}{"what": "exponent text not parsed to its exact value", "input": text, "impl": fmt.Sprintf("class %d, %d bits", rr.cls, rr.val.BitLen())})
 		}
@@ -1112,11 +1196,22 @@ func main() {
 		g.addLex([]byte(j))
 	}
 
+	// ---------- round 3: multi-field documents, concurrent use, last comparison of everything retained ----------
+	nDocs, nConc := 240, 1500
+	if thorough {
+		nDocs, nConc = 4000, 20000
+	}
+	g.addHelpers()
+	g.addDocs(nDocs)
+	K.finish()
+	g.mergeKeeper(K)
+	g.concurrent(8, nConc)
+
 	if err := g.w.Flush(); err != nil {
 		panic(err)
 	}
 	st.Evaluations = g.w.Count()
-	st.Rule = "integers 0,1,2^k-1,2^k,2^k+1 (k in 8,16,31,32,53,63,64,128,255,256,260), 10^k, random 1..300-bit and their negatives, each written in canonical decimal, 0x-hex (lower/upper/mixed, leading zeros), plain JSON number, exponent forms (fraction exactly consumed / one digit too many / trailing zeros in the exponent / compensated and uncompensated negative exponents), fractional texts (.0, .000, .5, a 1 beyond 256-bit precision) through BigIntegerFromString, HexInteger and HexUint64 (JSON string and JSON number); random valid decimal/exponent texts with their exact value; a fixed list of malformed texts, random texts over the numeric alphabet and every text up to length sweep_max_len over sweep_alphabet (also run through math/big directly to validate the model of SetString/ParseFloat/Rat.SetString); addresses (EIP-55 vectors, letters-only, digits-only, random) in 3 casings x 2 prefixes, length 19/21, odd, non-hex, other prefixes; byte strings of length 0..1024 in 3 casings x 2 prefixes, odd and non-hex. distinct = distinct (entry point, input); non-trivial = more than one character / more than 3 bits"
+	st.Rule = "integers 0,1,2^k-1,2^k,2^k+1 (k in 8,16,31,32,53,63,64,128,255,256,260), 10^k, random 1..300-bit and their negatives, each written in canonical decimal, 0x-hex (lower/upper/mixed, leading zeros), plain JSON number, exponent forms (fraction exactly consumed / one digit too many / trailing zeros in the exponent / compensated and uncompensated negative exponents), fractional texts (.0, .000, .5, a 1 beyond 256-bit precision) through BigIntegerFromString, HexInteger and HexUint64 (JSON string and JSON number); random valid decimal/exponent texts with their exact value; a fixed list of malformed texts, random texts over the numeric alphabet and every text up to length sweep_max_len over sweep_alphabet (also run through math/big directly to validate the model of SetString/ParseFloat/Rat.SetString); addresses (EIP-55 vectors, letters-only, digits-only, random) in 3 casings x 2 prefixes, length 19/21, odd, non-hex, other prefixes; byte strings of length 0..1024 in 3 casings x 2 prefixes, odd and non-hex. round 3: every object the implementation returns (the *big.Int of BigIntegerFromString / UnmarshalBigInt, HexInteger / HexUint64 receivers, HexBytes slices, addresses, the []byte of MarshalJSON, String() texts) is kept in a ring of 320 next to a deep copy and compared again after every later call and at the end; on leaving the ring the caller overwrites it in place and the same call is repeated; the []byte entry points get a private input buffer that must be left unmodified and is overwritten after the call; documents with 13 members of all seven types (every integer in a random spelling, JSON number or string, members in random order) unmarshalled in one go, marshalled back and read again, one in six with one member that must be refused; constructors / accessors / nil receivers / Scan / Must*; 8 goroutines running disjoint streams of all operations with their own rings. distinct = distinct (entry point, input); non-trivial = more than one character / more than 3 bits"
 	if err := st.Write(filepath.Join(*out, "stats_C19.json")); err != nil {
 		panic(err)
 	}
